@@ -456,6 +456,7 @@ def main():
 def write_evidence(prop, tier, base, flavours, results, crashes, found, new, seen_known, fw_errors, gate_failures, build_s, run_s, wall):
     os.makedirs(EVIDENCE, exist_ok=True)
     nontrivial = set()
+    inv_pairs, nest_pairs = set(), set()
     agg = collections.Counter()
     policies = collections.Counter()
     executors = collections.Counter()
@@ -467,6 +468,7 @@ def write_evidence(prop, tier, base, flavours, results, crashes, found, new, see
         for k, val in s.items():
             if isinstance(val, int): agg[k] += val
         steps += r.get("steps", 0)
+        inv_pairs.update(r.get("inverted_pairs", [])); nest_pairs.update(r.get("nested_pairs", []))
         executors["%s/%s/%s" % (r.get("ordering"), r.get("kernel"), r.get("executor"))] += 1
         heights[str(r.get("height"))] += 1
         pol = r.get("policy", {})
@@ -503,6 +505,8 @@ def write_evidence(prop, tier, base, flavours, results, crashes, found, new, see
             "sim_steps": steps,
             "simulated_time_note": "tbfmm has no clock; simulated time is reported as scheduler steps (scheduling points visited)",
             "faults_fired": dict(faults),
+            "order_inversions_seen": {"distinct_pairs_of_task_kinds": len(inv_pairs), "meaning": "X<Y: a task of kind X started while an earlier-submitted task of kind Y was still pending", "sample": sorted(inv_pairs)[:40]},
+            "overlaps_seen": {"distinct_pairs_of_task_kinds": len(nest_pairs), "meaning": "X in Y: a task of kind X ran entirely while a task of kind Y was suspended inside a kernel callback", "sample": sorted(nest_pairs)[:40]},
             "totals": dict(agg),
             "policies": dict(policies),
             "executors": dict(executors),
